@@ -4,6 +4,7 @@ import Deb822Verif.Lemmas.DebLexLines
 import Deb822Verif.Lemmas.DebParseDoc
 import Deb822Verif.Lemmas.DebContentDoc
 import Deb822Verif.Spec.DocSDec
+import Deb822Verif.Lemmas.DebReject
 /-!
 # C03 — well-formed deb822 documents are accepted and read back exactly as written
 -/
@@ -120,6 +121,36 @@ theorem C03_tree_text (d : DocS) (h : d.WF) : d.tree.text = d.str := by
     exact this _ _
   rw [← h3, this]
 
+/-! ### rejection -/
+
+/-- **rejection clause**: take any well-formed document all of whose lines are LF-terminated, append
+    a line that is neither field, continuation, comment nor blank (`BadLine`: it starts with ':' ,
+    or with a character that cannot start a field name, or it is a name — optionally followed by
+    whitespace — not followed by ':'), and then anything at all after that line's end: the
+    tolerant reader reports an error and the strict reader fails. -/
+theorem C03_reject (d : DocS) (h : d.WF) (ha : DocTermAll d) (l tail : Str) (hb : BadLine l)
+    (he : LineEnd tail) :
+    (readRelaxed (d.str ++ (l ++ tail))).2 ≠ [] ∧ ∀ t, readStrict (d.str ++ (l ++ tail)) ≠ .ok t := by
+  have := parse_bad_line d h ha l tail hb he
+  refine ⟨this, ?_⟩
+  intro t ht
+  unfold readStrict at ht
+  split at ht
+  · rename_i he'
+    exact this (by simpa [List.isEmpty_iff] using he')
+  · simp at ht
+
+instance parasTermRDec : (ps : List (ParaS × List Gap)) → Decidable (parasTermR ps)
+  | [] => isTrue trivial
+  | [(p, g)] => by simp only [parasTermR]; exact inferInstance
+  | (p, g) :: q :: ps =>
+    have := parasTermRDec (q :: ps)
+    by simp only [parasTermR]; exact inferInstance
+
+theorem docTermAll_iff (d : DocS) : DocTermAll d ↔ (gapsTerm d.lead true ∧ parasTermR d.paras) :=
+  ⟨fun h => ⟨h.lead, h.paras⟩, fun h => ⟨h.1, h.2⟩⟩
+instance (d : DocS) : Decidable (DocTermAll d) := decidable_of_iff _ (docTermAll_iff d).symm
+
 /-! ### non-vacuity: a concrete document with comments, duplicate names, continuation lines, a
     continuation starting with ':', no final newline — it satisfies `WF` -/
 
@@ -140,6 +171,28 @@ example : exDoc.str = "# lead\n\nSource: foo\n :x é\n# c\nA:\nA:\tb: #c\n# trai
   decide
 
 example : exDoc.WF := by decide
+
+/-- the rejection theorem fires: a fully terminated prefix of the example followed by the bad line
+    `Maintainer  Jane` (a name, whitespace, then no colon) and more text -/
+def exPrefix : DocS :=
+  { lead := [.comment " lead".toList true, .blank],
+    paras := [
+      ({ first := { key := "Source".toList, ws := [' '], v := "foo".toList, nl := true,
+                    conts := [{ indent := [' '], text := ":x é".toList, nl := true }] },
+         rest := [.comment " c".toList true,
+                  .entry { key := "A".toList, ws := [], v := [], nl := true, conts := [] }] },
+       [.blank, .comment " between".toList true])] }
+
+example : exPrefix.WF ∧ DocTermAll exPrefix := by constructor <;> decide
+
+example : BadLine "Maintainer  Jane".toList :=
+  ⟨by decide, Or.inr (Or.inr ⟨"Maintainer".toList, "  ".toList, "Jane".toList, rfl, by decide, by decide,
+    by intro x hx; simp at hx; subst hx; decide,
+    by intro x hx; simp at hx; subst hx; decide,
+    by intro c hc; simp at hc; subst hc; decide⟩)⟩
+
+example : BadLine "-x: y".toList :=
+  ⟨by decide, Or.inr (Or.inl ⟨'-', "x: y".toList, rfl, by decide, by decide, by decide, by decide⟩)⟩
 
 example : exDoc.content =
     [[("Source".toList, "foo\n:x é".toList), ("A".toList, []), ("A".toList, "b: #c".toList)],
